@@ -36,6 +36,7 @@ def install_all(reg):
     from . import attractors
     attractors.install(reg)
     attractors.install_sets(reg)
+    attractors.install_mark_expanded(reg)
     from . import candidates
     candidates.install(reg)
     candidates.install_helpers(reg)
@@ -59,6 +60,7 @@ def install_all(reg):
     algorithms.install_attractor_seeds(reg)
     algorithms.install_wrappers(reg)
     algorithms.install_reports(reg)
+    petri_build.install_source_nodes(reg)      # last: its declarations must not disturb the term numbering of the proofs above
 
     _extra_tags(reg)
 
